@@ -14,11 +14,17 @@
   → ok pcs=<pc after each t/m/r label, `B` when not enabled> rets=<tid:key:id|-:cached;…>
        strong=<key:id,…> weak=<key:id,…> cap=<n> lock=<tid|-> held=<owner.seq:key:id,…>
 
+  gettz.resolve <tzvar|-> <tzfiles> <tzpaths> <files> <tzname> <vendored> <tzstrok 0|1> <name|->
+     strings hex (`.` empty), lists `a,b,c` (`~` empty); files = `hexpath:t|o|v|s` (tzfile() loads / OSError / ValueError / struct.error)
+  → (followed by ` c<0|1|2>`: cached / returned uncached / None in GettzFunc.__call__)
+    ok local | ok file <hex> | ok vendored <hex> | ok tzstr <hex> | ok utc | ok none | err OSError | err ValueError | err StructError
+
   zone.eq <a> <b> <same>   → ok <0|1>          zones encoded as described at `parseZone?`
   zone.eqm <a> <b>         → ok t|f|ni         (the `__eq__` method result)
 -/
 import DateutilVerif.Base.Wire
 import DateutilVerif.Model.Factory
+import DateutilVerif.Model.GettzResolve
 
 namespace Ops.Factory
 open Wire Fact
@@ -147,6 +153,35 @@ def parseZone? (w : String) : Option Zone :=
               (← parseHexString? str) (px == "1"))
   | _ => none
 
+def parseOptStr? (w : String) : Option (Option String) :=
+  if w == "-" then some none else (parseHexString? w).map some
+
+def parseStrList? (w : String) : Option (List String) :=
+  if w == "~" then some [] else (w.splitOn ",").mapM parseHexString?
+
+def parseFiles? (w : String) : Option (List (String × Gettz.Load)) :=
+  if w == "~" then some [] else
+  (w.splitOn ",").mapM fun it =>
+    match it.splitOn ":" with
+    | [p, k] => do
+      let path ← parseHexString? p
+      let kind ← (if k == "t" then some Gettz.Load.ok else if k == "o" then some Gettz.Load.osError
+                  else if k == "v" then some Gettz.Load.valueError
+                  else if k == "s" then some Gettz.Load.structError else none)
+      pure (path, kind)
+    | _ => none
+
+def showResolution : Gettz.R → String
+  | .ok .localZone => "ok local"
+  | .ok (.file p) => "ok file " ++ showHexString p
+  | .ok (.vendored n) => "ok vendored " ++ showHexString n
+  | .ok (.tzstr s) => "ok tzstr " ++ showHexString s
+  | .ok .utc => "ok utc"
+  | .ok .none => "ok none"
+  | .error .osError => "err OSError"
+  | .error .valueError => "err ValueError"
+  | .error .structError => "err StructError"
+
 def handle (op : String) (args : List String) : Option String :=
   match op, args with
   | "fact.run", [kind, cap, res, scripts, sched, eager] =>
@@ -163,6 +198,22 @@ def handle (op : String) (args : List String) : Option String :=
       | "single" => return run .single rs (initSingleton scripts) keys labs (eager == "1")
       | "single0" => return run .single rs (initState cap scripts) keys labs (eager == "1")
       | _ => return "err ValueError"
+  | "gettz.resolve", [tzvar, tzfiles, tzpaths, files, tzname, vend, sok, name] =>
+    some <| Id.run do
+      let some tzvar := parseOptStr? tzvar | return "err BadRequest"
+      let some tzfiles := parseStrList? tzfiles | return "err BadRequest"
+      let some tzpaths := parseStrList? tzpaths | return "err BadRequest"
+      let some files := parseFiles? files | return "err BadRequest"
+      let some tzname := parseStrList? tzname | return "err BadRequest"
+      let some vend := parseStrList? vend | return "err BadRequest"
+      let some name := parseOptStr? name | return "err BadRequest"
+      let env : Gettz.Env := {
+        tzVar := tzvar, tzfiles := tzfiles, tzpaths := tzpaths,
+        isfile := fun p => files.any (fun f => f.1 == p),
+        load := fun p => ((files.find? (fun f => f.1 == p)).map (·.2)).getD .osError,
+        tzname := tzname, vendored := fun n => vend.contains n, tzstrOk := fun _ => sok == "1" }
+      let r := Gettz.resolve env name
+      return showResolution r ++ (match r with | .ok x => s!" c{Gettz.cacheClass name x}" | .error _ => "")
   | "zone.eq", [a, b, same] =>
     some (match parseZone? a, parseZone? b with
       | some a, some b => "ok " ++ showBool (pyEq a b (same == "1"))
